@@ -18,9 +18,14 @@ namespace FpgoVerif.C01
 inductive IntK | int | int8 | int16 | int32 | int64 | uint | uint8 | uint16 | uint32 | uint64 | uintptr
   deriving DecidableEq, Repr
 
+/-- struct types whose *pointer* type has methods that `fmt` calls: `node` — a nil-tolerant `String()`, `err` — a
+    nil-tolerant `Error()`, `bad` — a `String()` that dereferences its (possibly nil) receiver -/
+inductive Named | node | err | bad
+  deriving DecidableEq, Repr
+
 /-- Go types of the universe (`maybe t` = the interface `MaybeDef[t]`, `someDef t`/`noneDef` the concrete structs) -/
 inductive Ty
-  | bool | int (k : IntK) | f32 | f64 | c64 | c128 | string | struct | array | slice | map | func | chan | unsafePtr
+  | bool | int (k : IntK) | f32 | f64 | c64 | c128 | string | struct | named (n : Named) | array | slice | map | func | chan | unsafePtr
   | ptr (t : Ty) | any | maybe (t : Ty) | someDef (t : Ty) | noneDef
   deriving DecidableEq, Repr
 
@@ -42,6 +47,7 @@ inductive GoVal
   | unsafePtr (c : Option Int)            -- `unsafe.Pointer`, `none` = nil
   | str (hex : String)                    -- bytes, hex encoded
   | struct (k : Int)                      -- comparable struct with opaque payload
+  | nstruct (n : Named) (k : Int)         -- a struct of one of the `Named` types (methods on the pointer type)
   | slice (c : SliceC) | map (c : Option Int) | func (c : Option Int) | chan (c : Option Int)   -- `none` = nil
   | ptr (t : Ty) (a : Option Nat)         -- typed pointer to a `t`: nil or an address into the heap
   | some (T : Ty) (ref : GoVal) (isNil isPresent : Bool)   -- a `someDef[T]` struct value (nested Maybe)
@@ -63,6 +69,7 @@ def typeOf? : GoVal → Option Ty
   | .unsafePtr _ => some .unsafePtr
   | .str _ => some .string
   | .struct _ => some .struct
+  | .nstruct n _ => some (.named n)
   | .slice _ => some .slice
   | .map _ => some .map
   | .func _ => some .func
@@ -83,6 +90,7 @@ def kindOf : GoVal → Kind
   | .unsafePtr _ => .unsafePtr
   | .str _ => .string
   | .struct _ => .struct
+  | .nstruct _ _ => .struct
   | .slice _ => .slice
   | .map _ => .map
   | .func _ => .func
@@ -103,6 +111,7 @@ def zeroOf : Ty → GoVal
   | .unsafePtr => .unsafePtr none
   | .string => .str ""
   | .struct => .struct 0
+  | .named n => .nstruct n 0
   | .slice => .slice .nil
   | .map => .map none
   | .func => .func none
@@ -439,6 +448,7 @@ def fmtV (h : Heap) : Nat → GoVal → Option String
   | _, .unsafePtr (some _) => Option.none
   | _, .str hx => some hx
   | _, .struct k => some (hexOfAscii ("{" ++ toString k ++ "}"))
+  | _, .nstruct _ k => some (hexOfAscii ("{" ++ toString k ++ "}"))    -- the value type has no methods
   | _, .slice .nil => some (hexOfAscii "[]")
   | _, .slice .empty => some (hexOfAscii "[]")
   | _, .slice (.elems k) => some (hexOfAscii ("[" ++ toString k ++ " " ++ toString (k + 1) ++ "]"))
@@ -448,11 +458,19 @@ def fmtV (h : Heap) : Nat → GoVal → Option String
   | _, .func (some _) => Option.none
   | _, .chan Option.none => some (hexOfAscii "<nil>")
   | _, .chan (some _) => Option.none
+  -- fmt calls Error()/String() on the operand itself (depth 0) even when it is a nil pointer: a nil-tolerant
+  -- method answers with its own text (a method that panics on the nil receiver is caught: "<nil>")
+  | 0, .ptr (.named .node) Option.none => some (hexOfAscii "[]")
+  | 0, .ptr (.named .err) Option.none => some (hexOfAscii "no error")
   | _, .ptr _ Option.none => some (hexOfAscii "<nil>")
   | d, .ptr t (some a) =>
     if d = 0 && !isIfaceTy t then
       match h[a]? with
       | some (.struct k) => some (hexOfAscii ("&{" ++ toString k ++ "}"))
+      -- a non-nil pointer whose type implements error / Stringer: fmt prints Error() / String()
+      | some (.nstruct .node k) => some (hexOfAscii ("[" ++ toString k ++ "]"))
+      | some (.nstruct .err k) => some (hexOfAscii ("err" ++ toString k))
+      | some (.nstruct .bad k) => some (hexOfAscii ("bad" ++ toString k))
       | some (.array k) => some (hexOfAscii ("&[" ++ toString k ++ " " ++ toString (k + 1) ++ "]"))
       | some (.slice .nil) => some (hexOfAscii "&[]")
       | some (.slice .empty) => some (hexOfAscii "&[]")
